@@ -430,7 +430,10 @@ def _locs_slice(
                         None, sep_end_pos)  # case 1
 
             if tr_text_pos == end_pos and tr_ln == last_end_ln + 1:  # no comments, maybe trailing space on line, treat as if doesn't end line
-                if single or not re_empty_line.match(lines[loc_last.ln], 0, loc_last.col):  # if multiple elements and last element starts its own line then fall through to next case, yes the re match can extend beyond starting bound (its fine since its just informative)
+                if (single
+                    or (loc_last.ln, loc_last.col) < (loc_first.end_ln, loc_first.end_col)  # first and last locations which overlap are one element, one of them extended to include its operator (BoolOp, Compare), not multiple elements
+                    or not re_empty_line.match(lines[loc_last.ln], 0, loc_last.col)
+                ):  # if multiple elements and last element starts its own line then fall through to next case, yes the re match can extend beyond starting bound (its fine since its just informative)
                     return (fstloc(first_ln, first_col, last_end_ln, eff_last_end_col),
                             fstloc(first_ln, del_col, last_end_ln, eff_last_end_col),
                             None, sep_end_pos)  # case 2
